@@ -848,14 +848,15 @@ Section O3.
   Lemma newa_dom_nodes : forall t st1 st2 f1 f2,
     g_in st2 = g_in st1 -> g_out st2 = g_out st1 -> g_nodes st2 = g_nodes st1 ->
     nodes_ok st1 -> NoDup (map fst (g_nodes st1)) ->
-    newa t st1 f1 -> newa t st2 f2 -> frame st1 f1 -> frame st2 f2 ->
+    newa t st1 f1 -> newa t st2 f2 ->
+    map fst (g_nodes f1) = map fst (g_nodes st1) -> map fst (g_nodes f2) = map fst (g_nodes st2) ->
     dom f1 f2 -> dom f2 f1 -> g_nodes f1 = g_nodes f2.
   Proof.
     intros t st1 st2 f1 f2 A B C NO ND N1 N2 F1 F2 D12 D21.
     destruct (types_eq st1 st2 A B C) as [G _].
     apply nodes_eq.
-    - rewrite (fr_keys _ _ F1). exact ND.
-    - rewrite (fr_keys _ _ F1), (fr_keys _ _ F2), C. reflexivity.
+    - rewrite F1. exact ND.
+    - rewrite F1, F2, C. reflexivity.
     - intro k. change (get_node f1 k = get_node f2 k).
       pose proof (na_nodes _ _ _ N1 k) as H1. pose proof (na_nodes _ _ _ N2 k) as H2. rewrite G in H2.
       destruct (get_node st1 k) as [n|] eqn:Gk; [|congruence].
@@ -901,8 +902,8 @@ Section O3.
         - apply (dom_eqv_l st1 st2 f1 E). apply dom_of_ext; exact X1.
         - intros p Hp. apply (update_closed _ _ _ _ _ G1 U1). apply (ev_tvm _ _ E). exact Hp. }
       assert (NE : g_nodes f1 = g_nodes f2).
-      { eapply newa_dom_nodes with (st1 := st1) (st2 := st2); eauto using (ev_in _ _ E), (ev_out _ _ E), (ev_nodes _ _ E).
-        exact (proj1 G1). }
+      { apply (newa_dom_nodes t st1 st2 f1 f2 (ev_in _ _ E) (ev_out _ _ E) (ev_nodes _ _ E) (proj1 G1) ND N1 N2
+                                (fr_keys _ _ F1) (fr_keys _ _ F2) D12 D21). }
       destruct (update_sets _ _ _ _ _ G1 U1) as [T1 H1]. destruct (update_sets _ _ _ _ _ G2 U2) as [T2 H2].
       assert (TE : (forall k, in_ty f2 k = in_ty f1 k) /\ (forall k, out_ty f2 k = out_ty f1 k)).
       { destruct (types_eq f1 f2) as [_ [I O]]; auto.
@@ -1015,19 +1016,19 @@ Section O4.
     intros orc1 orc2 st1 st2 s e E I ND Q. unfold add_edge.
     rewrite (ev_err _ _ E), (ev_compiled _ _ E), !(eqv_has_node st1 st2 _ E), (ev_ctrl _ _ E).
     assert (ERR : eqv (set_err st1) (set_err st2)) by (destruct E; constructor; simpl; auto).
-    destruct (g_err st1) eqn:GE; [simpl; auto|].
-    destruct (g_compiled st1); [simpl; auto|].
+    destruct (g_err st1) eqn:GE; [simpl; split; [reflexivity|]; split; [exact E|]; split; [exact ND|]; intro; congruence|].
     specialize (Q eq_refl).
-    destruct (N.eqb s kEND); [simpl; repeat split; auto; discriminate|].
-    destruct (N.eqb e kSTART); [simpl; repeat split; auto; discriminate|].
-    destruct (negb (has_node st1 s) && negb (N.eqb s kSTART)) eqn:Hs; [simpl; repeat split; auto; discriminate|].
-    destruct (negb (has_node st1 e) && negb (N.eqb e kEND)) eqn:He; [simpl; repeat split; auto; discriminate|].
-    destruct (mem_pair (s, e) (g_ctrl st1)); [simpl; repeat split; auto; discriminate|].
+    destruct (g_compiled st1); [simpl; split; [reflexivity|]; split; [exact E|]; split; [exact ND|]; intros _; exact Q|].
+    destruct (N.eqb s kEND); [simpl; split; [reflexivity|]; split; [exact ERR|]; split; [exact ND|]; discriminate|].
+    destruct (N.eqb e kSTART); [simpl; split; [reflexivity|]; split; [exact ERR|]; split; [exact ND|]; discriminate|].
+    destruct (negb (has_node st1 s) && negb (N.eqb s kSTART)) eqn:Hs; [simpl; split; [reflexivity|]; split; [exact ERR|]; split; [exact ND|]; discriminate|].
+    destruct (negb (has_node st1 e) && negb (N.eqb e kEND)) eqn:He; [simpl; split; [reflexivity|]; split; [exact ERR|]; split; [exact ND|]; discriminate|].
+    destruct (mem_pair (s, e) (g_ctrl st1)); [simpl; split; [reflexivity|]; split; [exact ERR|]; split; [exact ND|]; discriminate|].
     apply has_or in Hs. apply has_or in He.
     set (m1 := mark_ends (set_ctrl st1 (g_ctrl st1 ++ [(s, e)])) s e).
     set (m2 := mark_ends (set_ctrl st2 (g_ctrl st1 ++ [(s, e)])) s e).
     change (g_data m1) with (g_data st1). change (g_data m2) with (g_data st2). rewrite (ev_data _ _ E).
-    destruct (mem_pair (s, e) (g_data st1)); [simpl; repeat split; auto; discriminate|].
+    destruct (mem_pair (s, e) (g_data st1)); [simpl; split; [reflexivity|]; split; [exact ERR|]; split; [exact ND|]; discriminate|].
     set (a1 := set_tvm m1 (g_tvm m1 ++ [(s, e)])). set (a2 := set_tvm m2 (g_tvm m2 ++ [(s, e)])).
     assert (Ea : eqv a1 a2).
     { destruct E; constructor; simpl; auto; try congruence. apply set_eq_app_tail; assumption. }
@@ -1048,7 +1049,7 @@ Section O4.
       + destruct UT; constructor; simpl; auto. congruence.
       + unfold keys_ok. simpl. rewrite (fr_keys _ _ (update_frame u _ _ _ _ _ U1)). exact ND.
       + intros _. exact (quiet_of_update _ _ _ _ _ Ga U1).
-    - simpl. repeat split; auto. discriminate.
+    - simpl. split; [reflexivity|]. split; [exact ERR|]. split; [exact ND|]. discriminate.
   Qed.
 
   (* ---------------------------------------------------------------- AddBranch, first part *)
@@ -1097,7 +1098,7 @@ Section O4.
         intros p Hp. eapply ext_ends_ok; [exact X0|]. apply (proj2 G). exact Hp. }
       assert (NDa : keys_ok a1).
       { unfold keys_ok, a1. simpl. rewrite map_fst_map_node. exact ND. }
-      assert (PT : preT t (g_tvm a1) a1) by (apply preT_typed_node; assumption).
+      assert (PT : preT t (g_tvm a1) a1) by exact (preT_typed_node st1 s t Q Hn C1 SE).
       pose proof (update_two u t (S (List.length (g_tvm a1))) (S (List.length (g_tvm a2)))
                              (fun n => orc1 n) (fun n => orc2 n)
                              0 0 a1 a2 Ea Ga NDa PT (Nat.lt_succ_diag_r _) (Nat.lt_succ_diag_r _)) as UT.
@@ -1111,3 +1112,620 @@ Section O4.
     - split; [exact E|]. split; [exact Q|]. split; [apply ext_refl|]. split; [exact G | exact ND].
   Qed.
 End O4.
+
+(* ==================================================================== Part 5: the loop over branch.endNodes *)
+
+Section O5.
+  Variable u : univ.
+
+  Lemma hf_in_both : forall st p x, In x (hf u st p) -> both st p.
+  Proof.
+    intros st p x H. unfold hf in H. destruct (out_ty st (fst p)) as [a|] eqn:A; [|destruct H].
+    destruct (in_ty st (snd p)) as [b|] eqn:B; [|destruct H]. split; eauto.
+  Qed.
+
+  (* what the calls [addToValidateMap(s, e); updateToValidateMap()] for the end nodes [l]
+     did to the state *)
+  Record befacts (a : ty) (s : key) (l : list key) (st f : gstate) : Prop := {
+    bf_ext : ext st f;
+    bf_good : good f;
+    bf_quiet : quiet f;
+    bf_newa : newa a st f;
+    bf_in : g_in f = g_in st; bf_out : g_out f = g_out st; bf_st : g_st f = g_st st;
+    bf_data : g_data f = g_data st; bf_ctrl : g_ctrl f = g_ctrl st; bf_branches : g_branches f = g_branches st;
+    bf_err : g_err f = g_err st; bf_compiled : g_compiled f = g_compiled st;
+    bf_keys : map fst (g_nodes f) = map fst (g_nodes st);
+    bf_hs : g_has_start f = g_has_start st || (match l with [] => false | _ => N.eqb s kSTART end);
+    bf_he : g_has_end f = g_has_end st || existsb (fun e => N.eqb e kEND) l;
+    bf_tvm : forall p, In p (g_tvm f) <-> In p (g_tvm st ++ map (pair s) l) /\ unk f p = true;
+    bf_hedge : forall x, In x (g_hedge f) <->
+                 In x (g_hedge st) \/ exists p, In p (g_tvm st ++ map (pair s) l) /\ In x (hf u f p);
+    bf_closed : forall p, In p (g_tvm st ++ map (pair s) l) -> closed f p;
+    bf_dom : forall r, nodes_ok r -> dom st r ->
+               (forall p, In p (g_tvm st ++ map (pair s) l) -> closed r p) -> dom f r
+  }.
+
+  Lemma befacts_nil : forall a s st, good st -> quiet st -> befacts a s [] st st.
+  Proof.
+    intros a s st G Q. constructor; try reflexivity; auto.
+    - apply ext_refl.
+    - apply newa_refl.
+    - rewrite orb_false_r; reflexivity.
+    - simpl. rewrite orb_false_r; reflexivity.
+    - intro p. simpl. rewrite app_nil_r. split; [intro H; split; [exact H | apply Q; exact H] | tauto].
+    - intro x. simpl. rewrite app_nil_r. split; [tauto|]. intros [H|[p [Hp Hx]]]; [exact H|].
+      exfalso. rewrite (hf_unk u st p (Q p Hp)) in Hx. destruct Hx.
+    - intros p Hp. simpl in Hp. rewrite app_nil_r in Hp. left. apply Q; exact Hp.
+  Qed.
+
+  Lemma befacts_trans : forall a s l1 l2 st mid f,
+    befacts a s l1 st mid -> befacts a s l2 mid f -> befacts a s (l1 ++ l2) st f.
+  Proof.
+    intros a s l1 l2 st mid f A B.
+    assert (SUB : forall p, In p (g_tvm mid) -> In p (g_tvm st ++ map (pair s) l1)).
+    { intros p Hp. apply (bf_tvm _ _ _ _ _ A) in Hp. tauto. }
+    constructor.
+    - eapply ext_trans; [apply (bf_ext _ _ _ _ _ A) | apply (bf_ext _ _ _ _ _ B)].
+    - apply (bf_good _ _ _ _ _ B).
+    - apply (bf_quiet _ _ _ _ _ B).
+    - eapply newa_trans; [apply (bf_newa _ _ _ _ _ A) | apply (bf_newa _ _ _ _ _ B)].
+    - rewrite (bf_in _ _ _ _ _ B); apply (bf_in _ _ _ _ _ A).
+    - rewrite (bf_out _ _ _ _ _ B); apply (bf_out _ _ _ _ _ A).
+    - rewrite (bf_st _ _ _ _ _ B); apply (bf_st _ _ _ _ _ A).
+    - rewrite (bf_data _ _ _ _ _ B); apply (bf_data _ _ _ _ _ A).
+    - rewrite (bf_ctrl _ _ _ _ _ B); apply (bf_ctrl _ _ _ _ _ A).
+    - rewrite (bf_branches _ _ _ _ _ B); apply (bf_branches _ _ _ _ _ A).
+    - rewrite (bf_err _ _ _ _ _ B); apply (bf_err _ _ _ _ _ A).
+    - rewrite (bf_compiled _ _ _ _ _ B); apply (bf_compiled _ _ _ _ _ A).
+    - rewrite (bf_keys _ _ _ _ _ B); apply (bf_keys _ _ _ _ _ A).
+    - rewrite (bf_hs _ _ _ _ _ B), (bf_hs _ _ _ _ _ A).
+      destruct l1; destruct l2; simpl; destruct (g_has_start st); destruct (N.eqb s kSTART); reflexivity.
+    - rewrite (bf_he _ _ _ _ _ B), (bf_he _ _ _ _ _ A). rewrite existsb_app. rewrite orb_assoc. reflexivity.
+    - intro p. rewrite map_app. rewrite (bf_tvm _ _ _ _ _ B p). rewrite !in_app_iff. split.
+      + intros [[Hp|Hp] U]; split; auto. apply SUB in Hp. apply in_app_or in Hp. tauto.
+      + intros [[Hp|[Hp|Hp]] U]; split; auto.
+        * left. apply (bf_tvm _ _ _ _ _ A). split; [apply in_or_app; left; exact Hp|].
+          eapply unk_ext; [apply (bf_ext _ _ _ _ _ B) | exact U].
+        * left. apply (bf_tvm _ _ _ _ _ A). split; [apply in_or_app; right; exact Hp|].
+          eapply unk_ext; [apply (bf_ext _ _ _ _ _ B) | exact U].
+    - intro x. rewrite map_app. rewrite (bf_hedge _ _ _ _ _ B x). split.
+      + intros [Hx|[p [Hp Hx]]].
+        * apply (bf_hedge _ _ _ _ _ A) in Hx. destruct Hx as [Hx|[p [Hp Hx]]]; [left; exact Hx|].
+          right. exists p. split; [rewrite app_assoc; apply in_or_app; left; exact Hp|].
+          rewrite (hf_ext u mid f p (bf_ext _ _ _ _ _ B) (hf_in_both _ _ _ Hx)). exact Hx.
+        * right. exists p. split; [|exact Hx]. rewrite app_assoc. apply in_app_or in Hp. apply in_or_app.
+          destruct Hp as [Hp|Hp]; [left; apply SUB; exact Hp | right; exact Hp].
+      + intros [Hx|[p [Hp Hx]]].
+        * left. apply (bf_hedge _ _ _ _ _ A). left; exact Hx.
+        * rewrite app_assoc in Hp. apply in_app_or in Hp. destruct Hp as [Hp|Hp].
+          -- destruct (bf_closed _ _ _ _ _ A p Hp) as [U|Bo].
+             ++ right. exists p. split; [|exact Hx]. apply in_or_app. left. apply (bf_tvm _ _ _ _ _ A). split; assumption.
+             ++ left. apply (bf_hedge _ _ _ _ _ A). right. exists p. split; [exact Hp|].
+                rewrite <- (hf_ext u mid f p (bf_ext _ _ _ _ _ B) Bo). exact Hx.
+          -- right. exists p. split; [apply in_or_app; right; exact Hp | exact Hx].
+    - intros p Hp. rewrite map_app, app_assoc in Hp. apply in_app_or in Hp. destruct Hp as [Hp|Hp].
+      + destruct (bf_closed _ _ _ _ _ A p Hp) as [U|Bo].
+        * apply (bf_closed _ _ _ _ _ B). apply in_or_app. left. apply (bf_tvm _ _ _ _ _ A). split; assumption.
+        * right. eapply both_ext; [apply (bf_ext _ _ _ _ _ B) | exact Bo].
+      + apply (bf_closed _ _ _ _ _ B). apply in_or_app. right; exact Hp.
+    - intros r NR D C. apply (bf_dom _ _ _ _ _ B r NR).
+      + apply (bf_dom _ _ _ _ _ A r NR D). intros p Hp. apply C. rewrite map_app, app_assoc. apply in_or_app. left; exact Hp.
+      + intros p Hp. apply C. rewrite map_app, app_assoc. apply in_app_or in Hp. apply in_or_app.
+        destruct Hp as [Hp|Hp]; [left; apply SUB; exact Hp | right; exact Hp].
+  Qed.
+
+  (* one end node *)
+  Lemma befacts_stage : forall a s e orc st st1,
+    good st -> quiet st -> out_ty st s = Some a -> (has_node st s = true \/ s = kSTART) ->
+    (has_node st e = true \/ e = kEND) ->
+    update_tvm u orc (set_tvm st (g_tvm st ++ [(s, e)])) = UOk st1 ->
+    befacts a s [e] st (mark_ends st1 s e).
+  Proof.
+    intros a s e orc st st1 G Q Oa Hs He U.
+    set (sta := set_tvm st (g_tvm st ++ [(s, e)])) in *.
+    assert (Ga : good sta).
+    { split; [exact (proj1 G)|]. unfold sta; simpl. intros p Hp. apply in_app_or in Hp.
+      destruct Hp as [Hp|[Hp|[]]]; [apply (proj2 G p Hp)|]. subst p. split; simpl; auto. }
+    assert (PT : preT a (g_tvm sta) sta) by exact (preT_append_known st s e a Q Oa).
+    unfold update_tvm in U.
+    destruct (update_spec u _ _ _ _ _ Ga U) as [X1 [G1 _]].
+    destruct (update_newa u a (g_tvm sta) _ _ _ _ _ Ga PT (incl_refl _) U) as [N1 _].
+    pose proof (update_frame u _ _ _ _ _ U) as F1.
+    destruct (update_sets u _ _ _ _ _ Ga U) as [T1 H1].
+    pose proof (quiet_of_update u _ _ _ _ _ Ga U) as Q1.
+    assert (SC : same_core st1 (mark_ends st1 s e)) by (unfold same_core; simpl; repeat split; reflexivity).
+    constructor.
+    - eapply ext_trans; [apply ext_set_tvm|]. eapply ext_trans; [exact X1 | apply same_core_ext; exact SC].
+    - eapply good_same_core; [exact SC | exact G1].
+    - exact Q1.
+    - eapply newa_trans; [apply (newa_same_nodes a st sta); reflexivity|].
+      eapply newa_trans; [exact N1 | apply newa_same_nodes; reflexivity].
+    - apply (fr_in _ _ F1).
+    - apply (fr_out _ _ F1).
+    - apply (fr_st _ _ F1).
+    - apply (fr_data _ _ F1).
+    - apply (fr_ctrl _ _ F1).
+    - apply (fr_branches _ _ F1).
+    - apply (fr_err _ _ F1).
+    - apply (fr_compiled _ _ F1).
+    - apply (fr_keys _ _ F1).
+    - simpl. rewrite (fr_hs _ _ F1). reflexivity.
+    - simpl. rewrite (fr_he _ _ F1). rewrite orb_false_r. reflexivity.
+    - exact T1.
+    - exact H1.
+    - intros p Hp. exact (update_closed u _ _ _ _ _ Ga U p Hp).
+    - intros r NR D C. change (dom st1 r). eapply update_dom; [exact Ga | exact NR | exact D | exact C | exact U].
+  Qed.
+
+  Lemma branch_ends_facts : forall a s l orc j st f,
+    good st -> quiet st -> out_ty st s = Some a -> (has_node st s = true \/ s = kSTART) ->
+    branch_ends u false orc j st s l = Some f -> befacts a s l st f.
+  Proof.
+    intros a s. induction l as [|e rest IH]; intros orc j st f G Q Oa Hs H; simpl in H.
+    - inversion H; subst. apply befacts_nil; assumption.
+    - destruct (negb (has_node st e) && negb (N.eqb e kEND)) eqn:He; [discriminate|]. apply has_or in He.
+      unfold update_sel in H.
+      destruct (update_tvm u (orc (S j)) (set_tvm st (g_tvm st ++ [(s, e)]))) as [st1| |] eqn:U; [|discriminate|discriminate].
+      pose proof (befacts_stage a s e _ st st1 G Q Oa Hs He U) as S1.
+      change (e :: rest) with ([e] ++ rest). eapply befacts_trans; [exact S1|].
+      eapply IH; [apply (bf_good _ _ _ _ _ S1) | apply (bf_quiet _ _ _ _ _ S1) | | | exact H].
+      + eapply ext_out_ty; [apply (bf_ext _ _ _ _ _ S1) | exact Oa].
+      + destruct Hs as [Hs|Hs]; [left; eapply ext_has_node; [apply (bf_ext _ _ _ _ _ S1) | exact Hs] | right; exact Hs].
+  Qed.
+End O5.
+
+(* ==================================================================== Part 6: AddBranch, AddNode, Compile, sequences *)
+
+Lemma keys_has_node : forall a b k, map fst (g_nodes b) = map fst (g_nodes a) -> has_node b k = has_node a k.
+Proof.
+  intros a b k K. unfold has_node, get_node.
+  assert (Q : forall (l l' : list (key * node)), map fst l' = map fst l ->
+              match nlist_get k l' with Some _ => true | None => false end =
+              match nlist_get k l with Some _ => true | None => false end).
+  { induction l as [|[k0 n0] l IH]; intros [|[k1 n1] l'] E; simpl in *; try discriminate; [reflexivity|].
+    injection E as E1 E2. subst k1. destruct (N.eqb k k0); [reflexivity | apply IH; exact E2]. }
+  apply Q; exact K.
+Qed.
+
+Lemma existsb_set_eq : forall (A : Type) (f : A -> bool) (l l' : list A),
+  set_eq l l' -> existsb f l = existsb f l'.
+Proof.
+  intros A f l l' H. destruct (existsb f l) eqn:E1; destruct (existsb f l') eqn:E2; try reflexivity.
+  - apply existsb_exists in E1. destruct E1 as [x [Hx Fx]]. apply H in Hx.
+    assert (existsb f l' = true) by (apply existsb_exists; exists x; auto). congruence.
+  - apply existsb_exists in E2. destruct E2 as [x [Hx Fx]]. apply H in Hx.
+    assert (existsb f l = true) by (apply existsb_exists; exists x; auto). congruence.
+Qed.
+
+Section O6.
+  Variable u : univ.
+
+  Lemma bad_entry_ext : forall st st' p, ext st st' -> bad_entry u st p -> bad_entry u st' p.
+  Proof.
+    intros st st' p X [ta [tb [A [B C]]]]. exists ta, tb.
+    split; [eapply ext_out_ty; eauto|]. split; [eapply ext_in_ty; eauto | exact C].
+  Qed.
+
+  Definition end_bad (st : gstate) (s e : key) : Prop :=
+    (has_node st e = false /\ e <> kEND) \/ bad_entry u st (s, e).
+
+  Lemma branch_ends_none : forall a s l orc j st,
+    good st -> quiet st -> out_ty st s = Some a -> (has_node st s = true \/ s = kSTART) ->
+    branch_ends u false orc j st s l = None -> exists e, In e l /\ end_bad st s e.
+  Proof.
+    intros a s. induction l as [|e rest IH]; intros orc j st G Q Oa Hs H; simpl in H; [discriminate|].
+    destruct (negb (has_node st e) && negb (N.eqb e kEND)) eqn:He.
+    - exists e. split; [left; reflexivity|]. left. apply andb_true_iff in He. destruct He as [A B].
+      apply negb_true_iff in A. apply negb_true_iff in B. apply N.eqb_neq in B. auto.
+    - apply has_or in He. unfold update_sel in H.
+      set (sta := set_tvm st (g_tvm st ++ [(s, e)])) in *.
+      assert (Ga : good sta).
+      { split; [exact (proj1 G)|]. unfold sta; simpl. intros p Hp. apply in_app_or in Hp.
+        destruct Hp as [Hp|[Hp|[]]]; [apply (proj2 G p Hp)|]. subst p. split; simpl; auto. }
+      assert (PT : preT a (g_tvm sta) sta) by exact (preT_append_known st s e a Q Oa).
+      destruct (update_tvm u (orc (S j)) sta) as [st1| |] eqn:U.
+      + pose proof (befacts_stage u a s e _ st st1 G Q Oa Hs He U) as S1.
+        destruct (IH orc (S j) (mark_ends st1 s e)) as [e' [He' B]]; auto.
+        * apply (bf_good _ _ _ _ _ _ S1).
+        * apply (bf_quiet _ _ _ _ _ _ S1).
+        * eapply ext_out_ty; [apply (bf_ext _ _ _ _ _ _ S1) | exact Oa].
+        * destruct Hs as [Hs|Hs]; [left; eapply ext_has_node; [apply (bf_ext _ _ _ _ _ _ S1) | exact Hs] | right; exact Hs].
+        * exists e'. split; [right; exact He'|]. destruct B as [[M1 M2]|[ta [tb [A1 [A2 A3]]]]].
+          -- left. rewrite (keys_has_node st _ e' (bf_keys _ _ _ _ _ _ S1)) in M1. auto.
+          -- right.
+             assert (P0 : preT a [(s, e')] st).
+             { intros p [Hp|[]]. subst p. simpl. rewrite Oa. split; intros c X Y; [congruence | discriminate]. }
+             destruct (mustnot_back u a [(s, e')] st _ (s, e') ta tb (proj1 G) (bf_newa _ _ _ _ _ _ S1) P0
+                                    (or_introl eq_refl) A1 A2 A3) as [B1 B2].
+             exists ta, tb. auto.
+      + exists e. split; [left; reflexivity|]. right. unfold update_tvm in U.
+        destruct (update_fail u a (g_tvm sta) sta _ _ _ sta (proj1 Ga) PT (newa_refl a sta) Ga PT (incl_refl _) U) as [p [Hp B]].
+        unfold sta in Hp; simpl in Hp. apply in_app_or in Hp. destruct Hp as [Hp|[Hp|[]]].
+        * exfalso. destruct B as [ta [tb [A1 _]]]. specialize (Q p Hp). unfold unk in Q.
+          change (out_ty st (fst p) = Some ta) in A1. rewrite A1 in Q. discriminate.
+        * subst p. exact B.
+      + exfalso. apply (update_tvm_fuel u (orc (S j)) sta Ga). exact U.
+  Qed.
+
+  Lemma branch_ends_bad : forall s l orc j st f e,
+    good st -> (has_node st s = true \/ s = kSTART) -> In e l -> end_bad st s e ->
+    branch_ends u false orc j st s l = Some f -> False.
+  Proof.
+    intros s. induction l as [|e0 rest IH]; intros orc j st f e G Hs Hin B H; simpl in H; [destruct Hin|].
+    destruct (negb (has_node st e0) && negb (N.eqb e0 kEND)) eqn:He; [discriminate|]. apply has_or in He.
+    unfold update_sel in H.
+    set (sta := set_tvm st (g_tvm st ++ [(s, e0)])) in *.
+    assert (Ga : good sta).
+    { split; [exact (proj1 G)|]. unfold sta; simpl. intros p Hp. apply in_app_or in Hp.
+      destruct Hp as [Hp|[Hp|[]]]; [apply (proj2 G p Hp)|]. subst p. split; simpl; auto. }
+    destruct (update_tvm u (orc (S j)) sta) as [st1| |] eqn:U; [|discriminate|discriminate].
+    unfold update_tvm in U.
+    destruct (update_spec u _ _ _ _ _ Ga U) as [X1 [G1 _]].
+    destruct Hin as [Hin|Hin].
+    - subst e0. destruct B as [[M1 M2]|B].
+      + destruct He as [He|He]; congruence.
+      + eapply update_bad_not_ok; [exact Ga | | | exact U].
+        * unfold sta; simpl. apply in_or_app. right. left. reflexivity.
+        * exact B.
+    - assert (SC : same_core st1 (mark_ends st1 s e0)) by (unfold same_core; simpl; repeat split; reflexivity).
+      assert (X : ext st (mark_ends st1 s e0)).
+      { eapply ext_trans; [apply ext_set_tvm|]. eapply ext_trans; [exact X1 | apply same_core_ext; exact SC]. }
+      eapply (IH orc (S j) (mark_ends st1 s e0) f e); [eapply good_same_core; eauto | | exact Hin | | exact H].
+      + destruct Hs as [Hs|Hs]; [left; eapply ext_has_node; eauto | right; exact Hs].
+      + destruct B as [[M1 M2]|B].
+        * left. split; [|exact M2].
+          rewrite (keys_has_node st (mark_ends st1 s e0) e); [exact M1|].
+          simpl. exact (fr_keys _ _ (update_frame u _ _ _ _ _ U)).
+        * right. eapply bad_entry_ext; eauto.
+  Qed.
+
+  Lemma eqv_end_bad : forall st1 st2 s e, eqv st1 st2 -> end_bad st1 s e -> end_bad st2 s e.
+  Proof.
+    intros st1 st2 s e E [[A B]|B]; [left | right].
+    - rewrite (eqv_has_node st1 st2 e E). auto.
+    - eapply eqv_bad_entry; eauto.
+  Qed.
+
+  Lemma branch_ends_two : forall a s l1 l2 orc1 orc2 j1 j2 st1 st2,
+    eqv st1 st2 -> good st1 -> keys_ok st1 -> quiet st1 -> out_ty st1 s = Some a ->
+    (has_node st1 s = true \/ s = kSTART) -> set_eq l1 l2 ->
+    match branch_ends u false orc1 j1 st1 s l1, branch_ends u false orc2 j2 st2 s l2 with
+    | Some f1, Some f2 => eqv f1 f2 /\ quiet f1 /\ keys_ok f1
+    | None, None => True
+    | _, _ => False
+    end.
+  Proof.
+    intros a s l1 l2 orc1 orc2 j1 j2 st1 st2 E G1 ND Q1 Oa Hs SE.
+    pose proof (eqv_good _ _ E G1) as G2. pose proof (eqv_quiet _ _ E Q1) as Q2.
+    destruct (eqv_types st1 st2 E) as [GN [TI TO]].
+    assert (Oa2 : out_ty st2 s = Some a) by (rewrite TO; exact Oa).
+    assert (Hs2 : has_node st2 s = true \/ s = kSTART) by (rewrite (eqv_has_node st1 st2 s E); exact Hs).
+    destruct (branch_ends u false orc1 j1 st1 s l1) as [f1|] eqn:B1;
+      destruct (branch_ends u false orc2 j2 st2 s l2) as [f2|] eqn:B2; try exact I.
+    - pose proof (branch_ends_facts u a s l1 _ _ _ _ G1 Q1 Oa Hs B1) as F1.
+      pose proof (branch_ends_facts u a s l2 _ _ _ _ G2 Q2 Oa2 Hs2 B2) as F2.
+      assert (SE' : forall p, In p (g_tvm st1 ++ map (pair s) l1) <-> In p (g_tvm st2 ++ map (pair s) l2)).
+      { intro p. rewrite !in_app_iff, !in_map_iff. pose proof (ev_tvm _ _ E p) as T.
+        split; (intros [H|[e [He Hi]]]; [left; tauto | right; exists e; split; [exact He | apply SE; exact Hi]]). }
+      assert (D12 : dom f1 f2).
+      { apply (bf_dom _ _ _ _ _ _ F1 f2 (proj1 (bf_good _ _ _ _ _ _ F2))).
+        - apply (dom_eqv_l st2 st1 f2 (eqv_sym _ _ E)). apply dom_of_ext. apply (bf_ext _ _ _ _ _ _ F2).
+        - intros p Hp. apply (bf_closed _ _ _ _ _ _ F2). apply SE'. exact Hp. }
+      assert (D21 : dom f2 f1).
+      { apply (bf_dom _ _ _ _ _ _ F2 f1 (proj1 (bf_good _ _ _ _ _ _ F1))).
+        - apply (dom_eqv_l st1 st2 f1 E). apply dom_of_ext. apply (bf_ext _ _ _ _ _ _ F1).
+        - intros p Hp. apply (bf_closed _ _ _ _ _ _ F1). apply SE'. exact Hp. }
+      assert (NE : g_nodes f1 = g_nodes f2).
+      { apply (newa_dom_nodes a st1 st2 f1 f2 (ev_in _ _ E) (ev_out _ _ E) (ev_nodes _ _ E) (proj1 G1) ND
+                 (bf_newa _ _ _ _ _ _ F1) (bf_newa _ _ _ _ _ _ F2) (bf_keys _ _ _ _ _ _ F1) (bf_keys _ _ _ _ _ _ F2) D12 D21). }
+      assert (TE : (forall k, in_ty f2 k = in_ty f1 k) /\ (forall k, out_ty f2 k = out_ty f1 k)).
+      { destruct (types_eq f1 f2) as [_ [I0 O0]]; auto.
+        - rewrite (bf_in _ _ _ _ _ _ F2), (bf_in _ _ _ _ _ _ F1). apply (ev_in _ _ E).
+        - rewrite (bf_out _ _ _ _ _ _ F2), (bf_out _ _ _ _ _ _ F1). apply (ev_out _ _ E). }
+      destruct TE as [TI' TO'].
+      assert (UE : forall p, unk f2 p = unk f1 p) by (intro p; unfold unk; rewrite TI', TO'; reflexivity).
+      assert (HE : forall p, hf u f2 p = hf u f1 p) by (intro p; unfold hf; rewrite TI', TO'; reflexivity).
+      split; [|split; [apply (bf_quiet _ _ _ _ _ _ F1) | unfold keys_ok; rewrite (bf_keys _ _ _ _ _ _ F1); exact ND]].
+      constructor.
+      + rewrite (bf_in _ _ _ _ _ _ F2), (bf_in _ _ _ _ _ _ F1). apply (ev_in _ _ E).
+      + rewrite (bf_out _ _ _ _ _ _ F2), (bf_out _ _ _ _ _ _ F1). apply (ev_out _ _ E).
+      + rewrite (bf_st _ _ _ _ _ _ F2), (bf_st _ _ _ _ _ _ F1). apply (ev_st _ _ E).
+      + symmetry; exact NE.
+      + rewrite (bf_data _ _ _ _ _ _ F2), (bf_data _ _ _ _ _ _ F1). apply (ev_data _ _ E).
+      + rewrite (bf_ctrl _ _ _ _ _ _ F2), (bf_ctrl _ _ _ _ _ _ F1). apply (ev_ctrl _ _ E).
+      + rewrite (bf_branches _ _ _ _ _ _ F2), (bf_branches _ _ _ _ _ _ F1). apply (ev_branches _ _ E).
+      + rewrite (bf_hs _ _ _ _ _ _ F2), (bf_hs _ _ _ _ _ _ F1), (ev_hs _ _ E).
+        destruct l1 as [|x1 l1]; destruct l2 as [|x2 l2]; try reflexivity.
+        * exfalso. apply (SE x2). left; reflexivity.
+        * exfalso. apply (SE x1). left; reflexivity.
+      + rewrite (bf_he _ _ _ _ _ _ F2), (bf_he _ _ _ _ _ _ F1), (ev_he _ _ E).
+        rewrite (existsb_set_eq _ _ l1 l2 SE). reflexivity.
+      + rewrite (bf_err _ _ _ _ _ _ F2), (bf_err _ _ _ _ _ _ F1). apply (ev_err _ _ E).
+      + rewrite (bf_compiled _ _ _ _ _ _ F2), (bf_compiled _ _ _ _ _ _ F1). apply (ev_compiled _ _ E).
+      + intro p. rewrite (bf_tvm _ _ _ _ _ _ F1 p), (bf_tvm _ _ _ _ _ _ F2 p), UE, (SE' p). tauto.
+      + intro x. rewrite (bf_hedge _ _ _ _ _ _ F1 x), (bf_hedge _ _ _ _ _ _ F2 x). pose proof (ev_hedge _ _ E x) as HH. split.
+        * intros [Hx|[p [Hp Hx]]]; [left; tauto|]. right. exists p. rewrite HE. split; [apply SE'; exact Hp | exact Hx].
+        * intros [Hx|[p [Hp Hx]]]; [left; tauto|]. right. exists p. rewrite HE in Hx. split; [apply SE'; exact Hp | exact Hx].
+    - destruct (branch_ends_none a s l2 _ _ _ G2 Q2 Oa2 Hs2 B2) as [e [He B]].
+      eapply (branch_ends_bad s l1 orc1 j1 st1 f1 e G1 Hs); [apply SE; exact He | | exact B1].
+      apply (eqv_end_bad st2 st1 s e (eqv_sym _ _ E) B).
+    - destruct (branch_ends_none a s l1 _ _ _ G1 Q1 Oa Hs B1) as [e [He B]].
+      eapply (branch_ends_bad s l2 orc2 j2 st2 f2 e G2 Hs2); [apply SE; exact He | | exact B2].
+      apply (eqv_end_bad st1 st2 s e E B).
+  Qed.
+End O6.
+
+Section O7.
+  Variable u : univ.
+
+  (* ---------------------------------------------------------------- AddBranch *)
+
+  Lemma add_branch_two : forall orc1 orc2 st1 st2 s t ends choice,
+    eqv st1 st2 -> inv u st1 -> keys_ok st1 -> (g_err st1 = false -> quiet st1) ->
+    snd (add_branch u false false false orc1 st1 s t ends choice) =
+    snd (add_branch u false false false orc2 st2 s t ends choice) /\
+    eqv (fst (add_branch u false false false orc1 st1 s t ends choice))
+        (fst (add_branch u false false false orc2 st2 s t ends choice)) /\
+    keys_ok (fst (add_branch u false false false orc1 st1 s t ends choice)) /\
+    (g_err (fst (add_branch u false false false orc1 st1 s t ends choice)) = false ->
+     quiet (fst (add_branch u false false false orc1 st1 s t ends choice))).
+  Proof.
+    intros orc1 orc2 st1 st2 s t ends choice E I ND Q. unfold add_branch.
+    rewrite (ev_err _ _ E), (ev_compiled _ _ E), (eqv_has_node st1 st2 _ E).
+    assert (ERR : eqv (set_err st1) (set_err st2)) by (destruct E; constructor; simpl; auto).
+    destruct (g_err st1) eqn:GE; [simpl; split; [reflexivity|]; split; [exact E|]; split; [exact ND|]; intro; congruence|].
+    specialize (Q eq_refl).
+    destruct (g_compiled st1); [simpl; split; [reflexivity|]; split; [exact E|]; split; [exact ND|]; intros _; exact Q|].
+    destruct (N.eqb_spec s kEND) as [SE|SE]; [simpl; split; [reflexivity|]; split; [exact ERR|]; split; [exact ND|]; discriminate|].
+    destruct (negb (has_node st1 s) && negb (N.eqb s kSTART)) eqn:Hs; [simpl; split; [reflexivity|]; split; [exact ERR|]; split; [exact ND|]; discriminate|].
+    destruct (Nat.eqb (List.length ends) 1); [simpl; split; [reflexivity|]; split; [exact ERR|]; split; [exact ND|]; discriminate|].
+    apply has_or in Hs.
+    pose proof (branch_pre_two u (fun n => orc1 0%nat (S n)) (fun n => orc2 0%nat (S n)) st1 st2 s t E (inv_good u _ I) ND Q SE) as BP.
+    destruct (branch_pre u false false false (fun n => orc1 0%nat (S n)) st1 s t) as [p1| |] eqn:B1;
+      destruct (branch_pre u false false false (fun n => orc2 0%nat (S n)) st2 s t) as [p2| |] eqn:B2; try contradiction;
+      [|simpl; split; [reflexivity|]; split; [exact ERR|]; split; [exact ND|]; discriminate].
+    destruct BP as [Ep [Qp [Xp [Gp NDp]]]].
+    destruct (eqv_types p1 p2 Ep) as [_ [_ TO]]. rewrite TO.
+    destruct (out_ty p1 s) as [a|] eqn:Oa;
+      [|rewrite check_none_l; simpl; split; [reflexivity|]; split; [exact ERR|]; split; [exact ND|]; discriminate].
+    assert (Hsp : has_node p1 s = true \/ s = kSTART).
+    { destruct Hs as [Hs|Hs]; [left; eapply ext_has_node; eauto | right; exact Hs]. }
+    assert (SEQ : set_eq (order_keys (orc1 0%nat 0%nat) ends) (order_keys (orc2 0%nat 0%nat) ends)).
+    { intro x. rewrite !In_order_keys. tauto. }
+    pose proof (branch_ends_two u a s _ _ orc1 orc2 0%nat 0%nat p1 p2 Ep Gp NDp Qp Oa Hsp SEQ) as BE.
+    destruct (check_assignable u (Some a) (Some t)) eqn:C;
+      [simpl; split; [reflexivity|]; split; [exact ERR|]; split; [exact ND|]; discriminate| |].
+    - destruct (branch_ends u false orc1 0 p1 s (order_keys (orc1 0%nat 0%nat) ends)) as [f1|] eqn:E1;
+        destruct (branch_ends u false orc2 0 p2 s (order_keys (orc2 0%nat 0%nat) ends)) as [f2|] eqn:E2; try contradiction;
+        [|simpl; split; [reflexivity|]; split; [exact ERR|]; split; [exact ND|]; discriminate].
+      destruct BE as [Ef [Qf NDf]]. simpl. split; [reflexivity|]. split; [|split; [exact NDf | intros _; exact Qf]].
+      destruct Ef; constructor; simpl; auto. congruence.
+    - destruct (branch_ends u false orc1 0 p1 s (order_keys (orc1 0%nat 0%nat) ends)) as [f1|] eqn:E1;
+        destruct (branch_ends u false orc2 0 p2 s (order_keys (orc2 0%nat 0%nat) ends)) as [f2|] eqn:E2; try contradiction;
+        [|simpl; split; [reflexivity|]; split; [exact ERR|]; split; [exact ND|]; discriminate].
+      destruct BE as [Ef [Qf NDf]]. simpl. split; [reflexivity|]. split; [|split; [exact NDf | intros _; exact Qf]].
+      destruct Ef; constructor; simpl; auto. congruence.
+  Qed.
+
+  (* ---------------------------------------------------------------- AddNode *)
+
+  Lemma NoDup_snoc : forall (A : Type) (l : list A) (x : A), NoDup l -> ~ In x l -> NoDup (l ++ [x]).
+  Proof.
+    intros A l x ND H. apply NoDup_app_disj; [exact ND | constructor; [intros []|constructor]|].
+    intros y Hy [E|[]]. subst. auto.
+  Qed.
+
+  Lemma add_node_two : forall st1 st2 k isp i o pre post,
+    eqv st1 st2 -> inv u st1 -> keys_ok st1 -> (g_err st1 = false -> quiet st1) ->
+    snd (add_node st1 k isp i o pre post) = snd (add_node st2 k isp i o pre post) /\
+    eqv (fst (add_node st1 k isp i o pre post)) (fst (add_node st2 k isp i o pre post)) /\
+    keys_ok (fst (add_node st1 k isp i o pre post)) /\
+    (g_err (fst (add_node st1 k isp i o pre post)) = false -> quiet (fst (add_node st1 k isp i o pre post))).
+  Proof.
+    intros st1 st2 k isp i o pre post E I ND Q. unfold add_node.
+    assert (HO : forall d h, handler_ok st2 d h = handler_ok st1 d h).
+    { intros d h. unfold handler_ok. rewrite (ev_st _ _ E). reflexivity. }
+    rewrite (ev_err _ _ E), (ev_compiled _ _ E), (eqv_has_node st1 st2 _ E), !HO.
+    assert (ERR : eqv (set_err st1) (set_err st2)) by (destruct E; constructor; simpl; auto).
+    destruct (g_err st1) eqn:GE; [simpl; split; [reflexivity|]; split; [exact E|]; split; [exact ND|]; intro; congruence|].
+    specialize (Q eq_refl).
+    destruct (g_compiled st1); [simpl; split; [reflexivity|]; split; [exact E|]; split; [exact ND|]; intros _; exact Q|].
+    destruct (N.eqb k kSTART || N.eqb k kEND); [simpl; split; [reflexivity|]; split; [exact ERR|]; split; [exact ND|]; discriminate|].
+    destruct (has_node st1 k) eqn:HN; [simpl; split; [reflexivity|]; split; [exact ERR|]; split; [exact ND|]; discriminate|].
+    destruct (handler_ok st1 i pre); simpl; [|split; [reflexivity|]; split; [exact ERR|]; split; [exact ND|]; discriminate].
+    destruct (handler_ok st1 o post); simpl; [|split; [reflexivity|]; split; [exact ERR|]; split; [exact ND|]; discriminate].
+    split; [reflexivity|]. split; [|split].
+    - destruct E; constructor; simpl; auto. congruence.
+    - unfold keys_ok. simpl. rewrite map_app. simpl. apply NoDup_snoc; [exact ND | apply has_node_false_notin; exact HN].
+    - intros _ p Hp. simpl in Hp. pose proof (Q p Hp) as U.
+      destruct (inv_tvm _ _ I p Hp) as [A B].
+      set (st' := set_nodes st1 (g_nodes st1 ++ [(k, {| n_pass := isp; n_in := i; n_out := o;
+                   n_pre := option_map h_ty pre; n_post := option_map h_ty post |})])).
+      assert (GN : forall k', has_node st1 k' = true -> get_node st' k' = get_node st1 k').
+      { intros k' H. unfold get_node, st'; simpl. rewrite get_app_new. unfold has_node, get_node in H.
+        destruct (nlist_get k' (g_nodes st1)); [reflexivity | discriminate]. }
+      assert (TI : forall k', has_node st1 k' = true \/ k' = kSTART \/ k' = kEND ->
+                              in_ty st' k' = in_ty st1 k' /\ out_ty st' k' = out_ty st1 k').
+      { intros k' H. unfold in_ty, out_ty. change (g_in st') with (g_in st1). change (g_out st') with (g_out st1).
+        destruct (N.eqb_spec k' kSTART); [auto|]. destruct (N.eqb_spec k' kEND); [auto|].
+        destruct H as [H|[H|H]]; try congruence. rewrite (GN k' H). auto. }
+      unfold unk in *.
+      destruct (TI (fst p)) as [_ T1]; [tauto|]. destruct (TI (snd p)) as [T2 _]; [tauto|].
+      change (match out_ty st' (fst p), in_ty st' (snd p) with None, None => true | _, _ => false end = true).
+      rewrite T1, T2. exact U.
+  Qed.
+
+  (* ---------------------------------------------------------------- Compile *)
+
+  Lemma compile_two : forall st1 st2,
+    eqv st1 st2 -> keys_ok st1 -> (g_err st1 = false -> quiet st1) ->
+    snd (compile st1) = snd (compile st2) /\ eqv (fst (compile st1)) (fst (compile st2)) /\
+    keys_ok (fst (compile st1)) /\ (g_err (fst (compile st1)) = false -> quiet (fst (compile st1))).
+  Proof.
+    intros st1 st2 E ND Q. unfold compile.
+    rewrite (ev_err _ _ E), (ev_hs _ _ E), (ev_he _ _ E), (ev_nodes _ _ E).
+    destruct (g_err st1) eqn:GE; [simpl; split; [reflexivity|]; split; [exact E|]; split; [exact ND|]; intro; congruence|].
+    specialize (Q eq_refl).
+    destruct (g_has_start st1); simpl; [|split; [reflexivity|]; split; [exact E|]; split; [exact ND|]; intros _; exact Q].
+    destruct (g_has_end st1); simpl; [|split; [reflexivity|]; split; [exact E|]; split; [exact ND|]; intros _; exact Q].
+    destruct (g_tvm st1) as [|x l] eqn:T1; destruct (g_tvm st2) as [|y l'] eqn:T2.
+    - destruct (existsb _ (g_nodes st1)); simpl; (split; [reflexivity|]); (split; [|split; [exact ND | intros _; exact Q]]); [exact E|].
+      destruct E; constructor; simpl; auto.
+    - exfalso. pose proof (ev_tvm _ _ E y) as H. rewrite T1, T2 in H. apply H. left; reflexivity.
+    - exfalso. pose proof (ev_tvm _ _ E x) as H. rewrite T1, T2 in H. apply H. left; reflexivity.
+    - simpl. split; [reflexivity|]. split; [exact E|]. split; [exact ND | intros _; exact Q].
+  Qed.
+
+  (* ---------------------------------------------------------------- every call, every sequence *)
+
+  Definition sim_inv (st : gstate) : Prop := inv u st /\ keys_ok st /\ (g_err st = false -> quiet st).
+
+  Lemma step_two : forall orc1 orc2 st1 st2 o,
+    eqv st1 st2 -> sim_inv st1 ->
+    snd (step u orc1 st1 o) = snd (step u orc2 st2 o) /\
+    eqv (fst (step u orc1 st1 o)) (fst (step u orc2 st2 o)) /\ sim_inv (fst (step u orc1 st1 o)).
+  Proof.
+    intros orc1 orc2 st1 st2 o E [I [ND Q]].
+    assert (IV : inv u (fst (step u orc1 st1 o))).
+    { destruct (step u orc1 st1 o) as [st' ok] eqn:S. destruct (step_spec u _ _ _ _ _ I S) as [I' _]. exact I'. }
+    destruct o as [k i ot pre post|k pre post|s e|s t ends choice|]; unfold step, step_sel in *.
+    - destruct (add_node_two st1 st2 k false (Some i) (Some ot) pre post E I ND Q) as [A [B [C D]]].
+      split; [exact A|]. split; [exact B|]. split; [exact IV|]. split; assumption.
+    - destruct (add_node_two st1 st2 k true None None pre post E I ND Q) as [A [B [C D]]].
+      split; [exact A|]. split; [exact B|]. split; [exact IV|]. split; assumption.
+    - destruct (add_edge_two u orc1 orc2 st1 st2 s e E I ND Q) as [A [B [C D]]].
+      split; [exact A|]. split; [exact B|]. split; [exact IV|]. split; assumption.
+    - destruct (add_branch_two orc1 orc2 st1 st2 s t ends choice E I ND Q) as [A [B [C D]]].
+      split; [exact A|]. split; [exact B|]. split; [exact IV|]. split; assumption.
+    - destruct (compile_two st1 st2 E ND Q) as [A [B [C D]]].
+      split; [exact A|]. split; [exact B|]. split; [exact IV|]. split; assumption.
+  Qed.
+
+  Lemma run_ops_two : forall ops orcs1 orcs2 i1 i2 st1 st2,
+    eqv st1 st2 -> sim_inv st1 ->
+    snd (run_ops u orcs1 i1 st1 ops) = snd (run_ops u orcs2 i2 st2 ops) /\
+    eqv (fst (run_ops u orcs1 i1 st1 ops)) (fst (run_ops u orcs2 i2 st2 ops)).
+  Proof.
+    induction ops as [|o rest IH]; intros orcs1 orcs2 i1 i2 st1 st2 E SI; unfold run_ops in *; simpl.
+    - split; [reflexivity | exact E].
+    - destruct (step_two (orcs1 i1) (orcs2 i2) st1 st2 o E SI) as [A [B C]]. unfold step in A, B, C.
+      destruct (step_sel u false false false (orcs1 i1) st1 o) as [a1 ok1].
+      destruct (step_sel u false false false (orcs2 i2) st2 o) as [a2 ok2]. simpl in A, B, C. subst ok2.
+      destruct (IH orcs1 orcs2 (S i1) (S i2) a1 a2 B C) as [A' B'].
+      destruct (run_ops_sel u false false false orcs1 (S i1) a1 rest) as [b1 oks1].
+      destruct (run_ops_sel u false false false orcs2 (S i2) a2 rest) as [b2 oks2]. simpl in *.
+      split; [f_equal; exact A' | exact B'].
+  Qed.
+
+  Lemma sim_inv_init : forall i o s, sim_inv (init_graph i o s).
+  Proof.
+    intros i o s. split; [apply inv_init|]. split; [constructor|]. intros _ p [].
+  Qed.
+
+  Theorem worklist_independent_main : forall orcs1 orcs2 i o s ops,
+    snd (run_ops u orcs1 0 (init_graph i o s) ops) = snd (run_ops u orcs2 0 (init_graph i o s) ops) /\
+    eqv (fst (run_ops u orcs1 0 (init_graph i o s) ops)) (fst (run_ops u orcs2 0 (init_graph i o s) ops)).
+  Proof. intros. apply run_ops_two; [apply eqv_refl | apply sim_inv_init]. Qed.
+End O7.
+
+(* ==================================================================== Part 7: runs do not see the difference *)
+
+Lemma forallb_set_eq : forall (A : Type) (f : A -> bool) (l l' : list A),
+  set_eq l l' -> forallb f l = forallb f l'.
+Proof.
+  intros A f l l' H. destruct (forallb f l) eqn:E1; destruct (forallb f l') eqn:E2; try reflexivity.
+  - rewrite forallb_forall in E1. assert (forallb f l' = true) by (apply forallb_forall; intros x Hx; apply E1; apply H; exact Hx). congruence.
+  - rewrite forallb_forall in E2. assert (forallb f l = true) by (apply forallb_forall; intros x Hx; apply E2; apply H; exact Hx). congruence.
+Qed.
+
+Lemma forallb_ext : forall (A : Type) (f g : A -> bool) (l : list A),
+  (forall x, f x = g x) -> forallb f l = forallb g l.
+Proof. intros A f g l H. induction l as [|x l IH]; simpl; [reflexivity | rewrite H, IH; reflexivity]. Qed.
+
+Section O8.
+  Variable u : univ.
+  Variable asrt : dyn -> ty -> bool.
+  Variable emit : list (key * dyn).
+
+  Lemma hedge_of_set : forall st s t c, In c (hedge_of st s t) <-> In (s, t, c) (g_hedge st).
+  Proof.
+    intros st s t c. unfold hedge_of. rewrite in_map_iff. split.
+    - intros [[[s0 t0] c0] [E H]]. simpl in E; subst c0. apply filter_In in H. destruct H as [H Q].
+      unfold pair_eqb in Q; simpl in Q. apply andb_true_iff in Q. destruct Q as [Q1 Q2].
+      apply N.eqb_eq in Q1. apply N.eqb_eq in Q2. subst. exact H.
+    - intro H. exists (s, t, c). split; [reflexivity|]. apply filter_In. split; [exact H|].
+      unfold pair_eqb; simpl. rewrite !N.eqb_refl. reflexivity.
+  Qed.
+
+  Lemma eqv_resolve : forall a b done, eqv a b -> resolve asrt b done = resolve asrt a done.
+  Proof.
+    intros a b done E. induction done as [|[s d] rest IH]; simpl; [reflexivity|].
+    unfold branches_of, succ_of. rewrite (ev_branches _ _ E), (ev_data _ _ E), IH. reflexivity.
+  Qed.
+
+  Lemma eqv_edges_ok : forall a b ws, eqv a b -> edges_ok asrt b ws = edges_ok asrt a ws.
+  Proof.
+    intros a b ws E. unfold edges_ok. apply forallb_ext. intros [[t s] d]. unfold conv_all.
+    apply forallb_set_eq. intro c. rewrite !hedge_of_set. pose proof (ev_hedge _ _ E (s, t, c)). tauto.
+  Qed.
+
+  Lemma eqv_next : forall a b done, eqv a b -> next u asrt b done = next u asrt a done.
+  Proof.
+    intros a b done E. unfold next. rewrite (eqv_resolve a b done E).
+    destruct (resolve asrt a done) as [o|ws]; [reflexivity|].
+    rewrite (eqv_edges_ok a b ws E), (ev_out _ _ E). reflexivity.
+  Qed.
+
+  Lemma eqv_exec_all : forall a b tasks, eqv a b -> exec_all asrt emit b tasks = exec_all asrt emit a tasks.
+  Proof.
+    intros a b tasks E. destruct (eqv_types a b E) as [G [TI TO]]. unfold exec_all.
+    assert (H1 : forallb (fun t => has_node b (fst t)) tasks = forallb (fun t => has_node a (fst t)) tasks).
+    { apply forallb_ext. intro t. apply eqv_has_node; exact E. }
+    assert (H2 : forallb (pre_ok asrt b) tasks = forallb (pre_ok asrt a) tasks).
+    { apply forallb_ext. intro t. unfold pre_ok. rewrite G. reflexivity. }
+    assert (H3 : map (node_out asrt emit b) tasks = map (node_out asrt emit a) tasks).
+    { apply map_ext. intro t. unfold node_out, emit_of. rewrite G, TO. reflexivity. }
+    rewrite H1, H2, H3.
+    assert (H4 : forall l, forallb (fun p : key * dyn * option dyn => post_ok asrt b (fst (fst p)) (snd p)) l =
+                           forallb (fun p : key * dyn * option dyn => post_ok asrt a (fst (fst p)) (snd p)) l).
+    { intro l. apply forallb_ext. intro p. unfold post_ok. rewrite G. reflexivity. }
+    rewrite H4. reflexivity.
+  Qed.
+
+  Lemma eqv_loop : forall a b steps tasks, eqv a b -> loop u asrt emit b steps tasks = loop u asrt emit a steps tasks.
+  Proof.
+    intros a b steps. induction steps as [|n IH]; intros tasks E; simpl; [reflexivity|].
+    destruct tasks as [|x r]; [reflexivity|].
+    rewrite (eqv_exec_all a b (x :: r) E). destruct (exec_all asrt emit a (x :: r)) as [o|done]; [reflexivity|].
+    rewrite (eqv_next a b done E). destruct (next u asrt a done) as [o|tasks']; [reflexivity|]. apply IH; exact E.
+  Qed.
+
+  Lemma eqv_run : forall a b input, eqv a b -> run u asrt emit b input = run u asrt emit a input.
+  Proof.
+    intros a b input E. unfold run. rewrite (eqv_next a b _ E).
+    destruct (next u asrt a [(kSTART, input)]) as [o|tasks]; [reflexivity|].
+    unfold max_steps. rewrite (ev_nodes _ _ E). apply eqv_loop; exact E.
+  Qed.
+End O8.
+
+(* the statement used by Props/C07.v *)
+Theorem worklist_independent_obs : forall u orcs1 orcs2 i o s ops st1 oks1 st2 oks2,
+  run_ops u orcs1 0 (init_graph i o s) ops = (st1, oks1) ->
+  run_ops u orcs2 0 (init_graph i o s) ops = (st2, oks2) ->
+  oks1 = oks2 /\
+  (forall k, in_ty st1 k = in_ty st2 k) /\ (forall k, out_ty st1 k = out_ty st2 k) /\
+  g_nodes st1 = g_nodes st2 /\ g_data st1 = g_data st2 /\ g_branches st1 = g_branches st2 /\
+  g_compiled st1 = g_compiled st2 /\ g_err st1 = g_err st2 /\
+  (forall x, In x (g_hedge st1) <-> In x (g_hedge st2)) /\
+  (forall p, In p (g_tvm st1) <-> In p (g_tvm st2)) /\
+  (forall asrt emit input, run u asrt emit st1 input = run u asrt emit st2 input).
+Proof.
+  intros u orcs1 orcs2 i o s ops st1 oks1 st2 oks2 H1 H2.
+  destruct (worklist_independent_main u orcs1 orcs2 i o s ops) as [A B]. rewrite H1, H2 in A, B. simpl in A, B.
+  destruct (eqv_types st1 st2 B) as [_ [TI TO]].
+  split; [exact A|]. split; [intro k; symmetry; apply TI|]. split; [intro k; symmetry; apply TO|].
+  split; [symmetry; apply (ev_nodes _ _ B)|]. split; [symmetry; apply (ev_data _ _ B)|].
+  split; [symmetry; apply (ev_branches _ _ B)|]. split; [symmetry; apply (ev_compiled _ _ B)|].
+  split; [symmetry; apply (ev_err _ _ B)|]. split; [apply (ev_hedge _ _ B)|]. split; [apply (ev_tvm _ _ B)|].
+  intros asrt emit input. symmetry. apply eqv_run. exact B.
+Qed.
